@@ -40,7 +40,7 @@ CASES = [
     ("bundle-now-from-wall-clock", "mutant", B, "    now_iso = iso_now(ctx)\n    cfg = cfg_snapshot(ctx)\n", "    now_iso = datetime.now(timezone.utc).isoformat()\n    cfg = cfg_snapshot(ctx)\n", "C01.CLOCK"),
     ("apply-metrics-finished-at", "mutant", A, "        \"ms\": _now_ms() - started,\n        \"applied\": applied_count,\n", "        \"ms\": _now_ms() - started,\n        \"finished_at\": _now_ms(),\n        \"applied\": applied_count,\n", "C01.CLOCK"),
     ("t2-now-always-wall", "mutant", T2, "    if not now_str:\n        _now_dt = dt.datetime.now(dt.timezone.utc)\n", "    if True:\n        _now_dt = dt.datetime.now(dt.timezone.utc)\n", "C01.CLOCK"),
-    ("index-now-always-wall", "mutant", IX, "        now_utc = _parse_iso(now) if isinstance(now, str) else dt.datetime.now(dt.timezone.utc)\n", "        now_utc = dt.datetime.now(dt.timezone.utc)\n", "C01.CLOCK"),
+    ("index-now-always-wall", "mutant", IX, '        now_utc = _parse_iso(now, _UNREADABLE_CLOCK) if isinstance(now, str) else dt.datetime.now(dt.timezone.utc)\n', '        now_utc = dt.datetime.now(dt.timezone.utc)\n', "C01.CLOCK"),
     ("index-parse-iso-host-timezone", "mutant", IX, "        if t.tzinfo is None:\n            t = t.replace(tzinfo=dt.timezone.utc)  # naive means UTC (as in LanceIndex), not the host's local zone\n        return t.astimezone(dt.timezone.utc)\n", "        return t.astimezone(dt.timezone.utc)\n", "C01.CLOCK"),
     ("helpers-parse-iso-host-timezone", "mutant", "clematis/engine/stages/t2/helpers.py", "        if t.tzinfo is None:\n            t = t.replace(tzinfo=dt.timezone.utc)  # naive means UTC, not the host's local zone\n        return t.astimezone(dt.timezone.utc)\n", "        return t.astimezone(dt.timezone.utc)\n", "C01.CLOCK"),
     # HIST
